@@ -44,7 +44,13 @@ class Result:
             self.samples.append(s)
 
     def floor(self, rule, what, got, minimum):
-        """fail closed when a rule matched fewer instances than were confirmed by hand."""
+        """fail closed when a rule matched far fewer instances than were confirmed by hand (the rule would be vacuous).
+        `minimum` is the confirmed count; merging two call sites into a helper or removing a duplicate legitimately lowers a
+        count a little, so the alarm is raised below 60% of it (and always at zero); a smaller drop is noted in the evidence."""
+        confirmed = minimum
+        minimum = max(1, (confirmed * 6 + 9) // 10) if confirmed > 1 else confirmed
+        if minimum <= got < confirmed:
+            self.note("%s: %d instance(s) of %s, %d were confirmed by hand when the rule was written (code restructured?)" % (rule, got, what, confirmed))
         if got < minimum:
             self.bad(rule, "%s # floor # %s" % (rule, what),
                      "%s: only %d instance(s) of %s found, %d were confirmed by hand; the rule would be vacuous "
